@@ -50,7 +50,7 @@ ServerDecode(i) ==
 ServerCall(i, o) ==
     /\ c[i].pc = "calling" /\ o \in CbOutcomes
     /\ LET word == IF o.ok /\ ~o.err THEN "OK" ELSE "NO"
-           mlen == IF o.err THEN 25 ELSE MsgLen(o.msg)           \* err.Error() replaces the message
+           mlen == IF o.err /\ o.msg = "empty" THEN 25 ELSE MsgLen(o.msg)   \* err.Error() replaces the message
            raw  == 2 + (IF mlen = 0 THEN 0 ELSE 1 + mlen)
            plen == IF ClipMessage /\ raw > 256 THEN 256 ELSE raw
        IN c' = [c EXCEPT ![i].pc = "replying", ![i].cbCalls = @ + 1, ![i].cb = o, ![i].owner = i,
